@@ -989,6 +989,8 @@ def _unwrap(x):
 
 
 def np_max(interp, x, axis=None, **kw):
+    if isinstance(x, RootsV) and x.stage == 'real':
+        return _select_root(interp, x)
     d = _asdata(interp, x)
     if not isinstance(d, list):
         return d
@@ -1001,6 +1003,8 @@ def np_max(interp, x, axis=None, **kw):
 
 
 def np_min(interp, x, axis=None, **kw):
+    if isinstance(x, RootsV) and x.stage == 'real':
+        return _select_root(interp, x)
     d = _asdata(interp, x)
     if not isinstance(d, list):
         return d
@@ -1365,6 +1369,59 @@ def _nd_method(interp, arr, name):
     return None
 
 
+class RootsV:
+    """np.roots(coefs): assumed contract 'the returned array holds exactly
+    the complex roots of the polynomial'.  Only the selection idiom
+    [r for r in roots if np.isreal(r)] -> np.real -> np.max / np.min is
+    modelled: the selected value is *some* real root (an arbitrary one, so
+    whatever is proved holds for the largest and the smallest alike)."""
+
+    def __init__(self, coefs, stage='roots'):
+        self.coefs = coefs
+        self.stage = stage
+
+    def sym_iter(self, interp):
+        if self.stage != 'roots':
+            raise Unsupported('iteration over selected roots')
+        return [RootElem(self)]
+
+
+class RootElem:
+    def __init__(self, roots):
+        self.roots = roots
+
+
+def np_roots(interp, coefs):
+    cs = _flatten(_asdata(interp, coefs))
+    return RootsV(cs)
+
+
+def np_isreal(interp, x):
+    if isinstance(x, RootElem):
+        return True
+    if is_num(x):
+        return True
+    raise Unsupported('np.isreal(%r)' % type(x))
+
+
+def np_real(interp, x):
+    if isinstance(x, list) and len(x) == 1 and isinstance(x[0], RootElem):
+        return RootsV(x[0].roots.coefs, 'real')
+    if isinstance(x, list) and any(isinstance(e, RootElem) for e in x):
+        raise Unsupported('np.real of mixed roots')
+    return x
+
+
+def _select_root(interp, rs):
+    ctx = interp.ctx
+    r = Sym(ctx.fresh('root', 'real'))
+    acc = 0
+    for c in rs.coefs:
+        acc = interp.ops.binop(ADD, interp.ops.binop(MUL, acc, r), c)
+    ctx.assume(interp.ops.equals(acc, 0))
+    return r
+
+
 def external_modules(interp):
     E = {}
 
@@ -1411,7 +1468,8 @@ def external_modules(interp):
         'integer': TYPES['np.integer'], 'generic': TYPES['np.generic'],
         'pi': SymConst.pi(interp), 'inf': InfV(float('inf')),
         'nan': InfV(float('nan')),
-        'real': B('real', lambda it, x: x),
+        'real': B('real', np_real), 'roots': B('roots', np_roots),
+        'isreal': B('isreal', np_isreal),
     }
     E['numpy'] = np_mod = _mod('numpy', np_tab)
     E['math'] = _mod('math', {
@@ -1454,7 +1512,7 @@ def external_modules(interp):
                           getattr(v, 'np_scalar', None) == 'integer'),
     })
     E['os'] = _mod('os', {})
-    E['re'] = _mod('re', {})
+    E['re'] = _mod('re', _re_table(interp))
     E['itertools'] = _mod('itertools', {
         'product': B('product', lambda it, *seqs, **k: _product(it, seqs, k)),
         'chain': B('chain', lambda it, *seqs: [x for s in seqs
@@ -1675,3 +1733,44 @@ def deep_copy(interp, x, memo):
     if hasattr(x, 'sym_deepcopy'):
         return x.sym_deepcopy(interp, memo)
     return x
+
+
+# ------------------------------------------------------------------ re
+
+class MatchV:
+    def __init__(self, m):
+        self.m = m
+
+    def sym_getattr(self, name, interp):
+        if name in ('group', 'groups', 'start', 'end', 'span', 'groupdict'):
+            return Builtin('match.' + name,
+                           lambda *a: getattr(self.m, name)(*a))
+        raise_('AttributeError', name)
+
+
+def _re_table(interp):
+    import re as _re
+
+    def conc(*xs):
+        return all(isinstance(x, (str, int)) or x is None for x in xs)
+
+    def wrap(fn, is_match=False):
+        def f(it, pattern, *args, **kw):
+            if not conc(pattern, *args):
+                if hasattr(it, 'strings'):
+                    return it.strings.regex(fn, pattern, args, kw)
+                raise Unsupported('re.%s on symbolic strings' % fn)
+            try:
+                r = getattr(_re, fn)(pattern, *args, **kw)
+            except _re.error as e:
+                raise Unsupported('re error %s' % e)
+            if is_match:
+                return MatchV(r) if r is not None else None
+            if isinstance(r, list):
+                return [tuple(x) if isinstance(x, tuple) else x for x in r]
+            return r
+        return Builtin('re.' + fn, f, pass_interp=True)
+    return {'findall': wrap('findall'), 'split': wrap('split'),
+            'sub': wrap('sub'), 'match': wrap('match', True),
+            'search': wrap('search', True), 'fullmatch': wrap('fullmatch',
+                                                              True)}
